@@ -1842,9 +1842,10 @@ Qed.
 
 End Statements.
 
-(* ---- non-vacuity: concrete histories with the hash function and initial size of the code ----- *)
-Definition ex_hash (a : Z) : Z := match tommy_inthash_u32_gen a with Some v => v | None => 0 end.
-Definition ex_bit0 : Z := c_TOMMY_HASHLIN_BIT.
+(* ---- non-vacuity: concrete histories (a fixed multiplicative hash and the initial size 2^6, so that these
+        examples do not depend on the code's constants; the executed model uses the code's) ----- *)
+Definition ex_hash (a : Z) : Z := (a * 40503) mod 65536.
+Definition ex_bit0 : Z := 6.
 Definition ex_key (i : nat) : entry := mkE (Z.of_nat i) (Z.of_nat (i mod 3)) 7 (Z.of_nat (i mod 2)).
 Definition ex_adds (n : nat) : list op := map (fun i => OAdd 0 (ex_key i)) (seq 0 n).
 Definition ex_removes (from n : nat) : list op := map (fun i => ORemove 0 (ex_key i)) (seq from n).
@@ -1874,22 +1875,22 @@ Example ex_invariant_nontrivial :
   let t := fst (run ex_hash ex_bit0 false (ex_adds 70) (init_state ex_bit0)) 0%nat in
   SpkiInv ex_hash ex_bit0 t /\ length (lst t) = 70%nat /\ length (buckets (ht t)) = 140%nat /\ state (ht t) = ST_GROW.
 Proof.
-  split; [apply invariant_all_histories; vm_compute; discriminate|]. vm_compute. repeat split; reflexivity.
+  split; [apply invariant_all_histories; unfold ex_bit0; lia|]. vm_compute. repeat split; reflexivity.
 Qed.
 
-(* AS 2 and AS 64 share the initial bucket under tommy_inthash_u32 (equal low 6 bits), and the lookup
+(* AS 2 and AS 66 share the initial bucket under ex_hash (equal low 6 bits), and the lookup
    still separates them; duplicates and unknown removals are reported and change nothing *)
 Example ex_collision_lookup :
-  Z.land (ex_hash 2) 63 = Z.land (ex_hash 64) 63 /\
-  let ops := [OAdd 0 (mkE 2 5 1 1); OAdd 0 (mkE 64 5 1 1); OAdd 0 (mkE 2 5 2 2); OAdd 0 (mkE 2 6 1 1);
+  Z.land (ex_hash 2) 63 = Z.land (ex_hash 66) 63 /\
+  let ops := [OAdd 0 (mkE 2 5 1 1); OAdd 0 (mkE 66 5 1 1); OAdd 0 (mkE 2 5 2 2); OAdd 0 (mkE 2 6 1 1);
               OAdd 0 (mkE 2 5 1 1); ORemove 0 (mkE 2 5 1 3);
-              OGetAll 0 2 5; OGetAll 0 64 5; OSearchSki 0 5] in
+              OGetAll 0 2 5; OGetAll 0 66 5; OSearchSki 0 5] in
   snd (run ex_hash ex_bit0 false ops (init_state ex_bit0)) =
-    [ObMut SPKI_SUCCESS [(0%nat, (mkE 2 5 1 1, true))]; ObMut SPKI_SUCCESS [(0%nat, (mkE 64 5 1 1, true))];
+    [ObMut SPKI_SUCCESS [(0%nat, (mkE 2 5 1 1, true))]; ObMut SPKI_SUCCESS [(0%nat, (mkE 66 5 1 1, true))];
      ObMut SPKI_SUCCESS [(0%nat, (mkE 2 5 2 2, true))]; ObMut SPKI_SUCCESS [(0%nat, (mkE 2 6 1 1, true))];
      ObMut SPKI_DUPLICATE_RECORD []; ObMut SPKI_RECORD_NOT_FOUND [];
-     ObBag [mkE 2 5 1 1; mkE 2 5 2 2]; ObBag [mkE 64 5 1 1];
-     ObList [mkE 2 5 1 1; mkE 64 5 1 1; mkE 2 5 2 2]].
+     ObBag [mkE 2 5 1 1; mkE 2 5 2 2]; ObBag [mkE 66 5 1 1];
+     ObList [mkE 2 5 1 1; mkE 66 5 1 1; mkE 2 5 2 2]].
 Proof. vm_compute. split; reflexivity. Qed.
 
 (* copy / swap / notify_diff as rtr_sync uses them *)
